@@ -22,13 +22,37 @@
 // Non-trivial case: a reduction or a binary operator was applied to a powerset with >= 2 non-empty,
 // non-redundant disjuncts of which two overlap or touch.
 //
-// Known findings (guards are active only with VERIF_KF_ACTIVE=<id>,...):
-//   (see the list next to each vf::kf(...) call; summary kept here)
-//   KF-C09-1  topological_closure_assign() (and fold_space_dimensions) keep the `reduced' flag although
-//             closing disjuncts can make them comparable: afterwards omega_reduce() is a no-op on a
-//             redundant sequence and OK() is false.  Guards: inv.OK, omega_reduce.nonredundant,
-//             when a closure/fold happened earlier on that object (or on an object it was copied from).
+// Known findings (a guard is active only with VERIF_KF_ACTIVE=<id>,...; with no id active the check fails):
+//   KF-C09-1  Pointset_Powerset::topological_closure_assign() (Pointset_Powerset_templates.hh:692) and
+//             fold_space_dimensions() (:361) modify the disjuncts but keep the `reduced' flag, although closing /
+//             folding can make incomparable disjuncts comparable.  Afterwards OK() is false, omega_reduce() is a
+//             no-op on a redundant sequence (is_universe()/is_topologically_closed(), which trust the flag, may
+//             answer wrongly).  Guarded checks: inv.OK, omega_reduce.nonredundant, q.is_universe,
+//             q.is_topologically_closed - only inside the window between such a call and the next operator that
+//             resets the flag (the window is inherited by copies and by upper_bound/concatenate results).
+//   KF-C09-2  (base level, seen through Pointset_Powerset<Rational_Box>::simplify_using_context_assign with a
+//             context of >= 2 disjuncts, or open bounds) Box::simplify_using_context_assign does not preserve the
+//             meet: (a) Box_templates.hh:2168 `for (j = num_dims; j-- > i; )' also resets interval i, so a box
+//             disjoint from the context becomes the universe; (b) Interval::simplify_using_context_assign
+//             (Interval_templates.hh:410, "FIXME ... assumes that intervals are closed") drops an open bound that the
+//             closed context bound does not imply.  Guarded check: base.simplify_using_context_assign (Rational_Box
+//             only); the powerset-level simplify.* checks are skipped for that step.
+//   KF-C09-3  (base level, seen through pairwise_reduce on boxes) Box::upper_bound_assign_if_exact answers false for
+//             adjacent half-open intervals such as [-2,-1) and [-1,0): Interval::can_be_exactly_joined_to
+//             (Interval_inlines.hh:313) compares an open with a closed boundary by eq().  pairwise_reduce() therefore
+//             leaves mergeable boxes.  Guarded check: base.upper_bound_assign_if_exact (Rational_Box, verdict false).
+//   KF-C09-4  (base level, seen through Pointset_Powerset<C/NNC_Polyhedron>::simplify_using_context_assign with a
+//             context of >= 2 disjuncts) Polyhedron::simplify_using_context_assign may return a polyhedron that is
+//             meet-preserving but NOT an enlargement of its first argument (documented: "meet-preserving enlargement
+//             simplification"): when an inequality of the *context* is saturated by the whole meet it is taken as a
+//             "masked equality" (Polyhedron_public.cc:2534-2560; PPL_ASSERT(i >= y_cs_num_ineq) at :2542 is violated).
+//             Pointset_Powerset::intersection_preserving_enlarge_element (Pointset_Powerset_templates.hh:704) meets the
+//             later context disjuncts with that result, so the powerset result loses points of X /\ context.
+//             e.g. X={x0+x1=2,1<=x0<=3,x1>=-2}, context {[2,3]x[-2,-1]} U {[2,3]x[-1,0]} -> {x0+x1=2, x1<=-1}.
+//             Guarded check: base.simplify_using_context_assign.enlargement (polyhedra); powerset-level simplify.*
+//             checks are skipped for that step (without the guard the step fails on that check or on simplify.meet).
 #include "poly_common.hh"
+#include "reflattice_x.hh"
 #include <list>
 
 const vf::Info vf_info = { "C09", "c09_powerset", 4.0 };
@@ -62,7 +86,19 @@ static Sys rel_apply(const Sys& p, size_t n, const std::vector<Con>& rel, bool i
 
 static std::string show_union(const Union& u) { std::ostringstream o; o << "[" << u.size() << ":"; for (size_t i = 0; i < u.size(); ++i) o << (i ? " U " : " ") << ref::show(u[i]); o << " ]"; return o.str(); }
 static bool same_syntax(const Union& a, const Union& b) { if (a.size() != b.size()) return false; for (size_t i = 0; i < a.size(); ++i) if (ref::show(a[i]) != ref::show(b[i])) return false; return true; }
-static bool u_equal(const Union& a, const Union& b) { return same_syntax(a, b) || ref::union_equal(a, b); }
+// exact covering test: like ref::covered, but disjuncts that do not meet the remaining piece are skipped instead of
+// being used to split it (the splitting is what makes the test expensive)
+static bool cov(const Sys& p, const Union& u, size_t from, int depth) {
+  if (ref::is_empty(p)) return true;
+  while (from < u.size() && ref::is_empty(ref::meet(p, u[from]))) ++from;
+  if (from == u.size()) return false;
+  if (depth > 14) throw ref::Budget_Exceeded();
+  Union rest = ref::difference(p, u[from]);
+  for (size_t i = 0; i < rest.size(); ++i) if (!cov(rest[i], u, from + 1, depth + 1)) return false;
+  return true;
+}
+static bool u_included(const Union& a, const Union& b) { for (size_t i = 0; i < a.size(); ++i) if (!cov(a[i], b, 0, 0)) return false; return true; }
+static bool u_equal(const Union& a, const Union& b) { return same_syntax(a, b) || (u_included(a, b) && u_included(b, a)); }
 static bool u_empty(const Union& a) { for (size_t i = 0; i < a.size(); ++i) if (!ref::is_empty(a[i])) return false; return true; }
 static Union u_meet(const Union& a, const Union& b) { Union r; for (size_t i = 0; i < a.size(); ++i) for (size_t j = 0; j < b.size(); ++j) r.push_back(ref::meet(a[i], b[j])); return r; }
 static Union u_diff(const Union& a, const Union& b) {     // exact, pieces non-empty
@@ -208,13 +244,13 @@ template <typename D> struct Prog {
     case 1: { // intersection_assign / meet_assign
       Obj& q = partner(o); if (o.m.size() * q.m.size() > 9) { reduce(o, 1); break; }
       bool alt = t.chance(30); c.log << "  " << (alt ? "meet_assign" : "intersection_assign") << " ps" << idx(q) << "\n";
-      if (nontrivial_operand(o.m) || nontrivial_operand(q.m)) ++nt_steps;
+      if (nt_steps == 0 && (nontrivial_operand(o.m) || nontrivial_operand(q.m))) ++nt_steps;
       Union e = u_meet(o.m, q.m); if (alt) o.ps.meet_assign(q.ps); else o.ps.intersection_assign(q.ps);
       settle(o, "intersection_assign", e); arg_unchanged(q, "intersection_assign"); break; }
     case 2: { // upper_bound_assign and its aliases
       Obj& q = partner(o); if (o.m.size() + q.m.size() > 8) { reduce(o, 1); break; }
       int alt = (int) t.range(0, 2); c.log << "  " << (alt == 0 ? "upper_bound_assign" : alt == 1 ? "least_upper_bound_assign" : "upper_bound_assign_if_exact") << " ps" << idx(q) << "\n";
-      if (nontrivial_operand(o.m) || nontrivial_operand(q.m)) ++nt_steps;
+      if (nt_steps == 0 && (nontrivial_operand(o.m) || nontrivial_operand(q.m))) ++nt_steps;
       Union e = o.m; e.insert(e.end(), q.m.begin(), q.m.end()); size_t bound = o.m.size() + q.m.size();
       if (q.stale) o.stale = true;
       if (alt == 0) o.ps.upper_bound_assign(q.ps); else if (alt == 1) o.ps.least_upper_bound_assign(q.ps); else c.check("op.upper_bound_assign_if_exact.verdict", o.ps.upper_bound_assign_if_exact(q.ps), "returned false");
@@ -223,14 +259,14 @@ template <typename D> struct Prog {
     case 3: { // difference_assign
       Obj& q = partner(o); if (o.m.size() > 3 || q.m.size() > 2) { reduce(o, 1); break; }
       c.log << "  difference_assign ps" << idx(q) << "\n";
-      if (nontrivial_operand(o.m) || nontrivial_operand(q.m)) ++nt_steps;
+      if (nt_steps == 0 && (nontrivial_operand(o.m) || nontrivial_operand(q.m))) ++nt_steps;
       Union before = o.m; Union ex = u_diff(o.m, q.m);
       o.ps.difference_assign(q.ps);
       if (T::poly) { Union e; for (size_t i = 0; i < ex.size(); ++i) e.push_back(T::strict ? ex[i] : ref::closure(ex[i])); settle(o, "difference_assign", e); }
       else {
         Union got = read(o.ps);
-        c.check("difference.sound", ref::union_included(ex, got), [&] { return "difference_assign lost points of X \\ Y: result " + show_union(got) + " X=" + show_union(before) + " Y=" + show_union(q.m); });
-        c.check("difference.within", ref::union_included(got, before), [&] { return "difference_assign result not inside X: result " + show_union(got) + " X=" + show_union(before) + " Y=" + show_union(q.m); });
+        c.check("difference.sound", u_included(ex, got), [&] { return "difference_assign lost points of X \\ Y: result " + show_union(got) + " X=" + show_union(before) + " Y=" + show_union(q.m); });
+        c.check("difference.within", u_included(got, before), [&] { return "difference_assign result not inside X: result " + show_union(got) + " X=" + show_union(before) + " Y=" + show_union(q.m); });
         o.m = got; check_ok(o, "difference_assign");
       }
       arg_unchanged(q, "difference_assign"); break; }
@@ -281,7 +317,7 @@ template <typename D> struct Prog {
     case 10: { // time_elapse_assign: base-level results on copies, all pairs
       Obj& q = partner(o); if (o.m.size() * q.m.size() > 6) { reduce(o, 1); break; }
       c.log << "  time_elapse_assign ps" << idx(q) << "\n";
-      if (nontrivial_operand(o.m) || nontrivial_operand(q.m)) ++nt_steps;
+      if (nt_steps == 0 && (nontrivial_operand(o.m) || nontrivial_operand(q.m))) ++nt_steps;
       Union e; for (size_t i = 0; i < o.m.size(); ++i) for (size_t j = 0; j < q.m.size(); ++j) { D a = make_dom(o.m[i]); D b = make_dom(q.m[j]); a.time_elapse_assign(b); e.push_back(read(a, n)); }
       o.ps.time_elapse_assign(q.ps); settle(o, "time_elapse_assign", e, ".base"); arg_unchanged(q, "time_elapse_assign"); break; }
     case 11: { // topological_closure_assign
@@ -294,23 +330,30 @@ template <typename D> struct Prog {
     case 15: { // simplify_using_context_assign
       Obj& q = partner(o); if (o.m.size() * q.m.size() > 9) { reduce(o, 1); break; }
       c.log << "  simplify_using_context_assign ps" << idx(q);
-      if (nontrivial_operand(o.m) || nontrivial_operand(q.m)) ++nt_steps;
+      if (nt_steps == 0 && (nontrivial_operand(o.m) || nontrivial_operand(q.m))) ++nt_steps;
       Union before = o.m; Union want = u_meet(before, q.m); size_t sz = o.ps.size();
       bool r = o.ps.simplify_using_context_assign(q.ps); c.log << " -> " << r << "\n";
       Union got = read(o.ps); Union have = u_meet(got, q.m);
       { // the base-level operator must honour its own contract on every pair, otherwise the powerset result is meaningless
-        bool base_bad = false; std::string why;
+        bool base_bad = false, base_skip = false; std::string why;
         for (size_t i = 0; i < before.size() && !base_bad; ++i) for (size_t j = 0; j < q.m.size() && !base_bad; ++j) {
           if (ref::is_empty(before[i]) || ref::is_empty(q.m[j])) continue;
           D z = make_dom(before[i]); bool br = z.simplify_using_context_assign(make_dom(q.m[j])); Sys zs = read(z, n); Sys mt = ref::meet(before[i], q.m[j]);
+          if (br && !ref::included(before[i], zs)) {   // documented: meet-preserving *enlargement*; the powerset algorithm relies on it
+            if (T::poly && kf("KF-C09-4")) c.excluded("KF-C09-4");
+            else c.check("base.simplify_using_context_assign.enlargement", false, [&] { return "base-level simplify_using_context_assign(" + ref::show(before[i]) + ", context " + ref::show(q.m[j]) + ") left " + ref::show(zs) + ", which does not contain its first argument"; });
+            base_skip = true;
+          }
           if (br == ref::is_empty(mt) || !ref::equal(ref::meet(zs, q.m[j]), mt)) { base_bad = true; why = "base-level simplify_using_context_assign(" + ref::show(before[i]) + ", context " + ref::show(q.m[j]) + ") returned " + (br ? "true" : "false") + " and left " + ref::show(zs); }
         }
         if (base_bad) {
-          if (T::box && kf("KF-C09-2")) { c.excluded("KF-C09-2"); o.m = got; arg_unchanged(q, "simplify_using_context_assign"); break; }
-          c.check("base.simplify_using_context_assign", false, [&] { return why + ": the meet with the context is not preserved"; });
+          if (T::box && kf("KF-C09-2")) c.excluded("KF-C09-2");
+          else c.check("base.simplify_using_context_assign", false, [&] { return why + ": the meet with the context is not preserved"; });
+          o.m = got; arg_unchanged(q, "simplify_using_context_assign"); break;
         }
+        if (base_skip) { o.m = got; arg_unchanged(q, "simplify_using_context_assign"); break; }
       }
-      c.check("simplify.meet", ref::union_equal(have, want), [&] { return "meet with the context not preserved: result " + show_union(got) + " X=" + show_union(before) + " context=" + show_union(q.m); });
+      c.check("simplify.meet", u_equal(have, want), [&] { return "meet with the context not preserved: result " + show_union(got) + " X=" + show_union(before) + " context=" + show_union(q.m); });
       c.check("simplify.size", o.ps.size() <= sz, [&] { return "more disjuncts (" + std::to_string(o.ps.size()) + ") than before (" + std::to_string(sz) + ")"; });
       c.check("simplify.verdict", r == !u_empty(want), [&] { return std::string("returned ") + (r ? "true" : "false") + " but the meet with the context is " + (u_empty(want) ? "empty" : "non-empty") + ": X=" + show_union(before) + " context=" + show_union(q.m); });
       o.m = got; check_ok(o, "simplify_using_context_assign"); arg_unchanged(q, "simplify_using_context_assign"); break; }
@@ -352,7 +395,7 @@ template <typename D> struct Prog {
   void reduce(Obj& o, int which) {
     fell_back = true;
     size_t n = o.n; size_t before = o.ps.size(); Union m0 = o.m;
-    if (nontrivial_operand(o.m)) ++nt_steps;
+    if (nt_steps == 0 && nontrivial_operand(o.m)) ++nt_steps;
     if (which == 0) {
       c.log << "  omega_reduce\n"; o.ps.omega_reduce(); settle(o, "omega_reduce", m0);
       c.check("omega_reduce.size", o.ps.size() <= before, "omega_reduce() increased the number of disjuncts");
@@ -371,7 +414,7 @@ template <typename D> struct Prog {
         D a = make_dom(o.m[i]); D b = make_dom(o.m[j]); D x(a); bool ex = x.upper_bound_assign_if_exact(b);
         c.check("pairwise_reduce.irreducible", !ex, [&] { return "after pairwise_reduce() disjuncts " + ref::show(o.m[i]) + " and " + ref::show(o.m[j]) + " can still be merged (base-level upper_bound_assign_if_exact succeeds)"; });
         a.upper_bound_assign(b); Sys h = read(a, n); Union two; two.push_back(o.m[i]); two.push_back(o.m[j]);
-        bool geo = ref::covered(h, two);
+        bool geo = cov(h, two, 0, 0);
         if (ex != geo) {   // base-level exactness test disagrees with the geometry
           if (T::box && !ex && kf("KF-C09-3")) { c.excluded("KF-C09-3"); continue; }
           c.check("base.upper_bound_assign_if_exact", false, [&] { return std::string("base-level upper_bound_assign_if_exact answered ") + (ex ? "true" : "false") + " for " + ref::show(o.m[i]) + " and " + ref::show(o.m[j]) + " whose upper bound " + ref::show(h) + (geo ? " equals" : " differs from") + " their union"; });
@@ -402,9 +445,9 @@ template <typename D> struct Prog {
     switch (q) {
     case 0: case 1: { Obj& y = partner(o); bool eq = q == 1;
       if (m.size() + y.m.size() > 8) { c.log << "  (too many disjuncts for a geometric comparison)\n"; break; }
-      if (nontrivial_operand(m) || nontrivial_operand(y.m)) ++nt_steps;
+      if (nt_steps == 0 && (nontrivial_operand(m) || nontrivial_operand(y.m))) ++nt_steps;
       bool r = eq ? p.geometrically_equals(y.ps) : p.geometrically_covers(y.ps);
-      bool e = eq ? ref::union_equal(m, y.m) : ref::union_included(y.m, m);
+      bool e = eq ? u_equal(m, y.m) : u_included(y.m, m);
       c.log << "  ? " << (eq ? "geometrically_equals ps" : "geometrically_covers ps") << idx(y) << " -> " << r << "\n";
       c.check(eq ? "q.geometrically_equals" : "q.geometrically_covers", r == e, [&] { return std::string(eq ? "geometrically_equals" : "geometrically_covers") + " answered " + (r ? "true" : "false") + ": X=" + show_union(m) + " Y=" + show_union(y.m); });
       arg_unchanged(y, "geometric comparison"); arg_unchanged(o, "geometric comparison"); break; }
@@ -413,7 +456,7 @@ template <typename D> struct Prog {
       c.log << "  ? " << (st ? "strictly_contains ps" : "contains ps") << idx(y) << " -> " << r << "\n";
       bool doc = implies_doc(m, y.m, st);
       c.check(st ? "q.strictly_contains.documented" : "q.contains.documented", r == doc, [&] { return std::string(st ? "strictly_contains" : "contains") + " answered " + (r ? "true" : "false") + " but disjunct-wise containment is " + (doc ? "true" : "false") + ": X=" + show_union(m) + " Y=" + show_union(y.m); });
-      if (r) c.check("q.contains.implies_covers", ref::union_included(y.m, m), [&] { return "entailment-based containment holds but Y is not covered: X=" + show_union(m) + " Y=" + show_union(y.m); });
+      if (r) c.check("q.contains.implies_covers", u_included(y.m, m), [&] { return "entailment-based containment holds but Y is not covered: X=" + show_union(m) + " Y=" + show_union(y.m); });
       arg_unchanged(y, "contains"); arg_unchanged(o, "contains"); break; }
     case 4: { Obj& y = partner(o); bool r = p.is_disjoint_from(y.ps); c.log << "  ? is_disjoint_from ps" << idx(y) << " -> " << r << "\n";
       bool e = u_empty(u_meet(m, y.m));
@@ -474,14 +517,214 @@ template <typename D> struct Prog {
   }
 };
 
+// =============================================================================================================
+// Pointset_Powerset<Grid>: model = vector<rl::Grid> (exact lattice model, ref/reflattice*.hh, no PPL code).
+// Covering of a grid p by a finite union of grids is decided exactly: only the disjuncts meeting p in a sublattice
+// of finite index matter (B.H. Neumann: cosets of infinite index can be omitted from a finite covering of a group);
+// with M = lcm of those indices every coset of the common refinement has a representative p0 + sum c_t*param_t,
+// 0 <= c_t < M, and p is covered iff each representative lies in one of the disjuncts (finite window).
+typedef std::vector<rl::Grid> GUnion;
+struct Cg { std::vector<long> a; long b; long f; };   // a.x + b = 0 (mod f)
+static Congruence to_ppl(const Cg& c) { Linear_Expression e; for (size_t j = c.a.size(); j-- > 0; ) if (c.a[j]) e += c.a[j] * Variable(j); e += c.b; return (e %= 0) / c.f; }
+static std::string str(const Cg& c) { std::ostringstream o; bool first = true; for (size_t j = 0; j < c.a.size(); ++j) if (c.a[j]) { o << (first ? "" : " + ") << c.a[j] << "*x" << j; first = false; } if (first || c.b) o << (first ? "" : " + ") << c.b; o << " = 0 (mod " << c.f << ")"; return o.str(); }
+static void fold_cg(rl::Grid& g, const Cg& c) { rl::Vec a(g.n, rl::Q(0)); for (size_t j = 0; j < c.a.size(); ++j) a[j] = c.a[j]; g.add_congruence(a, rl::Q(-c.b), rl::Q(c.f)); }
+static rl::Grid model_of_congruences(const Congruence_System& cgs, size_t n) {
+  rl::Grid g(n);
+  for (Congruence_System::const_iterator i = cgs.begin(); i != cgs.end(); ++i) {
+    rl::Vec a(n, rl::Q(0)); for (size_t j = 0; j < i->space_dimension(); ++j) a[j] = rl::Q(mpz_class(i->coefficient(Variable(j))));
+    g.add_congruence(a, rl::Q(mpz_class(-i->inhomogeneous_term())), rl::Q(mpz_class(i->modulus())));
+  }
+  return g;
+}
+static Linear_Expression int_expr(const rl::Vec& v, const mpz_class& l, size_t n) { Linear_Expression e; for (size_t j = n; j-- > 0; ) { rl::Q x = v[j] * l; if (x != 0) e += Coefficient(x.get_num()) * Variable(j); } if (n > 0 && e.space_dimension() < n) e += 0 * Variable(n - 1); return e; }
+static mpz_class den_lcm(const rl::Vec& v) { mpz_class l = 1; for (size_t j = 0; j < v.size(); ++j) l = lcm(l, v[j].get_den()); return l; }
+static Grid make_grid(const rl::Grid& m) {
+  size_t n = m.n; if (m.empty) return Grid(n, EMPTY);
+  Grid_Generator_System gs; { mpz_class l = den_lcm(m.p); gs.insert(grid_point(int_expr(m.p, l, n), Coefficient(l))); }
+  for (size_t t = 0; t < m.params.size(); ++t) { mpz_class l = den_lcm(m.params[t]); gs.insert(parameter(int_expr(m.params[t], l, n), Coefficient(l))); }
+  for (size_t t = 0; t < m.lines.size(); ++t) { mpz_class l = den_lcm(m.lines[t]); gs.insert(grid_line(int_expr(m.lines[t], l, n))); }
+  Grid g(gs); if (g.space_dimension() < n) g.add_space_dimensions_and_project(n - g.space_dimension()); return g;
+}
+static bool g_cov(const rl::Grid& p, const GUnion& u) {
+  if (p.empty) return true;
+  GUnion zs; mpz_class M = 1;
+  for (size_t k = 0; k < u.size(); ++k) {
+    rl::Grid z = rl::intersect(p, u[k]); if (z.empty) continue; if (z.equals(p)) return true;
+    if (rl::dim(z) != rl::dim(p) || z.lines.size() != p.lines.size()) continue;
+    mpz_class idx = rl::index_in(z, p); if (idx == 0) continue; M = lcm(M, idx); zs.push_back(z);
+  }
+  if (zs.empty()) return false;
+  size_t k = p.params.size(); mpz_class total = 1; for (size_t t = 0; t < k; ++t) total *= M;
+  if (total > 3000) throw Inconclusive("grid covering window too large");
+  long m = M.get_si(); std::vector<long> cidx(k, 0);
+  for (;;) {
+    rl::Vec x = p.p; for (size_t t = 0; t < k; ++t) rl::axpy(x, rl::Q(cidx[t]), p.params[t]);
+    bool in = false; for (size_t i = 0; i < zs.size() && !in; ++i) in = zs[i].contains_point(x);
+    if (!in) return false;
+    size_t t = 0; while (t < k && ++cidx[t] == m) { cidx[t] = 0; ++t; }
+    if (t == k) break;
+  }
+  return true;
+}
+static bool g_included(const GUnion& a, const GUnion& b) { for (size_t i = 0; i < a.size(); ++i) if (!g_cov(a[i], b)) return false; return true; }
+static bool g_equal(const GUnion& a, const GUnion& b) { return g_included(a, b) && g_included(b, a); }
+static GUnion g_meet(const GUnion& a, const GUnion& b) { GUnion r; for (size_t i = 0; i < a.size(); ++i) for (size_t j = 0; j < b.size(); ++j) r.push_back(rl::intersect(a[i], b[j])); return r; }
+static bool g_empty(const GUnion& a) { for (size_t i = 0; i < a.size(); ++i) if (!a[i].empty) return false; return true; }
+static std::string g_show(const GUnion& u) { std::ostringstream o; o << "[" << u.size() << ":"; for (size_t i = 0; i < u.size(); ++i) o << (i ? " U " : " ") << u[i].show(); o << " ]"; return o.str(); }
+
+struct GProg {
+  typedef Pointset_Powerset<Grid> PS;
+  Ctx& c; Tape& t;
+  struct Obj { PS ps; GUnion m; size_t n; Obj(size_t n_) : ps(n_, EMPTY), n(n_) {} };
+  std::vector<Obj> pool; struct Snap { PS ps; GUnion m; std::string what; }; std::vector<Snap> snaps; int nt_steps = 0;
+  GProg(Ctx& c_) : c(c_), t(c_.t) {}
+  static GUnion read(const PS& ps) { GUnion u; size_t n = ps.space_dimension(); for (PS::const_iterator i = ps.begin(), e = ps.end(); i != e; ++i) u.push_back(model_of_congruences(i->pointset().congruences(), n)); return u; }
+  size_t idx(const Obj& o) { return &o - &pool[0]; }
+  Cg gen_cg(size_t n) { Cg cg; cg.a.assign(n, 0); size_t j = t.range(0, (long) n - 1); cg.a[j] = 1; if (n >= 2 && t.chance(25)) cg.a[(j + 1) % n] = t.pick(std::vector<long>{1, -1, 2}); cg.b = t.range(-3, 3); cg.f = t.pick(std::vector<long>{2, 2, 3, 4, 1, 0, 6}); return cg; }
+  void gen_disjunct(const Obj& o, Grid& g, rl::Grid& m) {
+    size_t n = o.n; int how = o.m.empty() ? 0 : t.weighted({40, 10, 15, 35});
+    if (how == 0) { int kind = t.weighted({84, 8, 8}); m = rl::Grid(n); g = Grid(n);
+      if (kind == 1) { m = rl::Grid::make_empty(n); g = Grid(n, EMPTY); c.log << "EMPTY"; return; } if (kind == 2) { c.log << "UNIVERSE"; return; }
+      int cnt = (int) t.range(1, (long) n + 1); for (int i = 0; i < cnt; ++i) { Cg cg = gen_cg(n); g.add_congruence(to_ppl(cg)); fold_cg(m, cg); c.log << (i ? ", " : "{") << str(cg); } c.log << "}"; return; }
+    const rl::Grid& base = o.m[t.range(0, (long) o.m.size() - 1)];
+    if (how == 1) { m = base; g = make_grid(m); c.log << "(copy of a disjunct) " << m.show(); return; }
+    if (how == 2) { Cg cg = gen_cg(n); m = base; fold_cg(m, cg); g = make_grid(base); g.add_congruence(to_ppl(cg)); c.log << "(a disjunct cut by " << str(cg) << ") " << m.show(); return; }
+    size_t k = t.range(0, (long) n - 1); long sh = t.pick(std::vector<long>{1, -1, 2}); m = base; if (!m.empty) { m.p[k] += sh; m.canon(); } g = make_grid(m); c.log << "(a disjunct shifted by " << sh << " along x" << k << ") " << m.show();
+  }
+  bool nontrivial_operand(const GUnion& m) {
+    std::vector<size_t> mx; for (size_t i = 0; i < m.size(); ++i) { if (m[i].empty) continue; bool red = false; for (size_t j = 0; j < m.size() && !red; ++j) if (j != i && m[j].contains(m[i]) && (j < i || !m[i].contains(m[j]))) red = true; if (!red) mx.push_back(i); }
+    if (mx.size() < 2) return false;   // two non-redundant grids that overlap or are cosets of one another
+    for (size_t a = 0; a < mx.size(); ++a) for (size_t b = a + 1; b < mx.size(); ++b) { if (!rl::intersect(m[mx[a]], m[mx[b]]).empty) return true; rl::Grid j = m[mx[a]]; j.join(m[mx[b]]); if (rl::dim(j) == rl::dim(m[mx[a]])) return true; }
+    return false;
+  }
+  void settle(Obj& o, const char* op, const GUnion& expected) {
+    GUnion got = read(o.ps);
+    c.check(std::string("grid.op.") + op, g_equal(got, expected), [&] { return std::string(op) + ": library union " + g_show(got) + " differs from the expected union " + g_show(expected) + "  (before: " + g_show(o.m) + ")"; });
+    c.check("grid.inv.space_dimension", o.ps.space_dimension() == o.n, "space_dimension() wrong");
+    o.m = got; c.check("grid.inv.OK", o.ps.OK(), [&] { return std::string("OK() is false after ") + op + "; disjuncts " + g_show(got); });
+  }
+  void arg_unchanged(Obj& q, const char* op) { GUnion got = read(q.ps); c.check("grid.arg.unchanged", g_equal(got, q.m), [&] { return std::string(op) + " changed the union of its const argument: now " + g_show(got) + " was " + g_show(q.m); }); q.m = got; }
+  Obj& partner(Obj& o) {
+    size_t self = idx(o); std::vector<size_t> cand; for (size_t i = 0; i < pool.size(); ++i) if (i != self && pool[i].n == o.n) cand.push_back(i);
+    if (cand.empty()) { size_t i = self == 0 ? 1 : 0; pool[i].ps = o.ps; pool[i].m = o.m; pool[i].n = o.n; c.log << "  (ps" << i << " := copy of ps" << self << ")\n"; return pool[i]; }
+    return pool[cand[t.range(0, (long) cand.size() - 1)]];
+  }
+  void reduce(Obj& o, int which) {
+    size_t before = o.ps.size(); GUnion m0 = o.m; size_t n = o.n;
+    if (nt_steps == 0 && nontrivial_operand(o.m)) ++nt_steps;
+    if (which == 0) { c.log << "  omega_reduce\n"; o.ps.omega_reduce(); settle(o, "omega_reduce", m0); c.check("grid.omega_reduce.size", o.ps.size() <= before, "more disjuncts");
+      for (size_t i = 0; i < o.m.size(); ++i) { c.check("grid.omega_reduce.nonredundant", !o.m[i].empty, "empty disjunct after omega_reduce()");
+        for (size_t j = 0; j < o.m.size(); ++j) if (i != j) c.check("grid.omega_reduce.nonredundant", !o.m[j].contains(o.m[i]), [&] { return "after omega_reduce(): disjunct " + o.m[i].show() + " is contained in " + o.m[j].show(); }); } }
+    else if (which == 1) { c.log << "  pairwise_reduce\n"; o.ps.pairwise_reduce(); settle(o, "pairwise_reduce", m0); c.check("grid.pairwise_reduce.size", o.ps.size() <= before, "more disjuncts");
+      if (o.m.size() <= 5) for (size_t i = 0; i < o.m.size(); ++i) for (size_t j = i + 1; j < o.m.size(); ++j) {
+        Grid a = make_grid(o.m[i]), b = make_grid(o.m[j]); bool ex = a.upper_bound_assign_if_exact(b);
+        c.check("grid.pairwise_reduce.irreducible", !ex, [&] { return "after pairwise_reduce() disjuncts " + o.m[i].show() + " and " + o.m[j].show() + " can still be merged"; });
+        bool geo = rl::union_is_grid(o.m[i], o.m[j]);
+        c.check("grid.base.upper_bound_assign_if_exact", ex == geo, [&] { return std::string("base-level upper_bound_assign_if_exact answered ") + (ex ? "true" : "false") + " for " + o.m[i].show() + " and " + o.m[j].show(); }); } }
+    else { c.log << "  collapse\n"; bool was_empty = o.ps.empty(); o.ps.collapse(); GUnion got = read(o.ps);
+      c.check("grid.collapse.size", got.size() == (was_empty ? 0u : 1u), "collapse() did not leave one disjunct");
+      if (!was_empty && got.size() == 1) { rl::Grid j = rl::Grid::make_empty(n); for (size_t i = 0; i < m0.size(); ++i) j.join(m0[i]);
+        c.check("grid.collapse.join", got[0].equals(j), [&] { return "collapse() gave " + got[0].show() + ", the join of the disjuncts is " + j.show(); }); }
+      o.m = got; c.check("grid.inv.OK", o.ps.OK(), "OK() false after collapse"); }
+  }
+  void mutate(Obj& o) {
+    size_t n = o.n; int op = t.weighted({12, 9, 9, 10, 7, 7, 4, 3, 3, 3, 6, 8, 5, 6, 4});
+    switch (op) {
+    case 0: { if (o.m.size() >= 6) { reduce(o, 1); break; } Grid g(n); rl::Grid m(n); c.log << "  add_disjunct "; gen_disjunct(o, g, m); c.log << "\n"; GUnion e = o.m; e.push_back(m); o.ps.add_disjunct(g); settle(o, "add_disjunct", e); break; }
+    case 1: { Obj& q = partner(o); if (o.m.size() * q.m.size() > 9) { reduce(o, 1); break; } c.log << "  intersection_assign ps" << idx(q) << "\n"; if (nt_steps == 0 && (nontrivial_operand(o.m) || nontrivial_operand(q.m))) ++nt_steps;
+      GUnion e = g_meet(o.m, q.m); o.ps.intersection_assign(q.ps); settle(o, "intersection_assign", e); arg_unchanged(q, "intersection_assign"); break; }
+    case 2: { Obj& q = partner(o); if (o.m.size() + q.m.size() > 8) { reduce(o, 1); break; } c.log << "  upper_bound_assign ps" << idx(q) << "\n"; if (nt_steps == 0 && (nontrivial_operand(o.m) || nontrivial_operand(q.m))) ++nt_steps;
+      GUnion e = o.m; e.insert(e.end(), q.m.begin(), q.m.end()); o.ps.upper_bound_assign(q.ps); settle(o, "upper_bound_assign", e); arg_unchanged(q, "upper_bound_assign"); break; }
+    case 3: { // difference_assign: sound over-approximation inside X; exact when every meeting pair has finite index
+      Obj& q = partner(o); if (o.m.size() > 3 || q.m.size() > 2) { reduce(o, 1); break; } c.log << "  difference_assign ps" << idx(q) << "\n"; if (nt_steps == 0 && (nontrivial_operand(o.m) || nontrivial_operand(q.m))) ++nt_steps;
+      GUnion before = o.m; o.ps.difference_assign(q.ps); GUnion got = read(o.ps);
+      GUnion gy = got; gy.insert(gy.end(), q.m.begin(), q.m.end());
+      c.check("grid.difference.sound", g_included(before, gy), [&] { return "difference_assign lost points of X \\ Y: result " + g_show(got) + " X=" + g_show(before) + " Y=" + g_show(q.m); });
+      c.check("grid.difference.within", g_included(got, before), [&] { return "difference_assign result not inside X: result " + g_show(got) + " X=" + g_show(before) + " Y=" + g_show(q.m); });
+      bool finite = true; for (size_t i = 0; i < before.size(); ++i) for (size_t j = 0; j < q.m.size(); ++j) { rl::Grid z = rl::intersect(before[i], q.m[j]); if (z.empty) continue; if (rl::dim(z) != rl::dim(before[i]) || z.lines.size() != before[i].lines.size()) finite = false; }
+      if (finite) c.check("grid.difference.exact", g_empty(g_meet(got, q.m)), [&] { return "X \\ Y is a finite union of grids but the result meets Y: result " + g_show(got) + " X=" + g_show(before) + " Y=" + g_show(q.m); });
+      o.m = got; c.check("grid.inv.OK", o.ps.OK(), "OK() false after difference_assign"); arg_unchanged(q, "difference_assign"); break; }
+    case 4: { Cg cg = gen_cg(n); bool refine = t.chance(40); c.log << "  " << (refine ? "refine_with_congruence " : "add_congruence ") << str(cg) << "\n"; GUnion e = o.m; for (size_t i = 0; i < e.size(); ++i) fold_cg(e[i], cg);
+      if (refine) o.ps.refine_with_congruence(to_ppl(cg)); else o.ps.add_congruence(to_ppl(cg)); settle(o, "add_congruence", e); break; }
+    case 5: { size_t k = t.range(0, (long) n - 1); std::vector<long> a(n); for (size_t j = 0; j < n; ++j) a[j] = t.chance(45) ? 0 : t.range(-2, 2); long b = t.range(-2, 2); long den = t.pick(std::vector<long>{1, 1, -1, 2}); bool image = t.chance(55);
+      Linear_Expression pe; for (size_t j = n; j-- > 0; ) if (a[j]) pe += a[j] * Variable(j); pe += b; rl::Vec ev(n); for (size_t j = 0; j < n; ++j) ev[j] = a[j];
+      c.log << "  " << (image ? "affine_image x" : "affine_preimage x") << k << " := (" << pe << ")/" << den << "\n";
+      GUnion e = o.m; for (size_t i = 0; i < e.size(); ++i) { if (image) e[i].affine_image(k, ev, rl::Q(b), rl::Q(den)); else e[i] = rl::affine_preimage(e[i], k, ev, rl::Q(b), rl::Q(den)); }
+      if (image) o.ps.affine_image(Variable(k), pe, Coefficient(den)); else o.ps.affine_preimage(Variable(k), pe, Coefficient(den)); settle(o, image ? "affine_image" : "affine_preimage", e); break; }
+    case 6: { size_t k = t.range(0, (long) n - 1); c.log << "  unconstrain x" << k << "\n"; GUnion e = o.m; for (size_t i = 0; i < e.size(); ++i) if (!e[i].empty) { rl::Vec v(n, rl::Q(0)); v[k] = 1; e[i].add_line(v); } o.ps.unconstrain(Variable(k)); settle(o, "unconstrain", e); break; }
+    case 7: { if (n >= 3) { reduce(o, 0); break; } bool emb = t.chance(50); c.log << "  add_space_dimensions_and_" << (emb ? "embed" : "project") << " 1\n"; GUnion e; for (size_t i = 0; i < o.m.size(); ++i) e.push_back(emb ? rl::embed(o.m[i], 1) : rl::project(o.m[i], 1));
+      if (emb) o.ps.add_space_dimensions_and_embed(1); else o.ps.add_space_dimensions_and_project(1); o.n = n + 1; settle(o, "add_space_dimensions", e); break; }
+    case 8: { if (n < 2) { reduce(o, 0); break; } size_t k = t.range(0, (long) n - 1); c.log << "  remove_space_dimensions x" << k << "\n"; std::vector<long> keep(n); long nx = 0; for (size_t j = 0; j < n; ++j) keep[j] = j == k ? -1 : nx++;
+      GUnion e; for (size_t i = 0; i < o.m.size(); ++i) e.push_back(rl::remap(o.m[i], keep, n - 1)); Variables_Set vs; vs.insert(Variable(k)); o.ps.remove_space_dimensions(vs); o.n = n - 1; settle(o, "remove_space_dimensions", e); break; }
+    case 9: { Obj& q = pool[t.range(0, (long) pool.size() - 1)]; if (&q == &o || n + q.n > 3 || o.m.size() * q.m.size() > 6) { reduce(o, 0); break; } c.log << "  concatenate_assign ps" << idx(q) << "\n";
+      GUnion e; for (size_t i = 0; i < o.m.size(); ++i) for (size_t j = 0; j < q.m.size(); ++j) e.push_back(rl::concatenate(o.m[i], q.m[j])); o.ps.concatenate_assign(q.ps); o.n = n + q.n; settle(o, "concatenate_assign", e); arg_unchanged(q, "concatenate_assign"); break; }
+    case 10: reduce(o, 0); break;
+    case 11: reduce(o, 1); break;
+    case 12: reduce(o, 2); break;
+    case 13: { Obj& q = partner(o); if (o.m.size() * q.m.size() > 9) { reduce(o, 1); break; } c.log << "  simplify_using_context_assign ps" << idx(q); if (nt_steps == 0 && (nontrivial_operand(o.m) || nontrivial_operand(q.m))) ++nt_steps;
+      GUnion before = o.m; GUnion want = g_meet(before, q.m); size_t sz = o.ps.size(); bool r = o.ps.simplify_using_context_assign(q.ps); c.log << " -> " << r << "\n"; GUnion got = read(o.ps);
+      bool base_bad = false; std::string why;
+      for (size_t i = 0; i < before.size() && !base_bad; ++i) for (size_t j = 0; j < q.m.size() && !base_bad; ++j) { if (before[i].empty || q.m[j].empty) continue;
+        Grid z = make_grid(before[i]); bool br = z.simplify_using_context_assign(make_grid(q.m[j])); rl::Grid zs = model_of_congruences(z.congruences(), n); rl::Grid mt = rl::intersect(before[i], q.m[j]);
+        if (br == mt.empty || !rl::intersect(zs, q.m[j]).equals(mt)) { base_bad = true; why = "base-level simplify_using_context_assign(" + before[i].show() + ", context " + q.m[j].show() + ") returned " + (br ? "true" : "false") + " and left " + zs.show(); } }
+      if (base_bad) { c.check("grid.base.simplify_using_context_assign", false, [&] { return why; }); o.m = got; arg_unchanged(q, "simplify_using_context_assign"); break; }
+      c.check("grid.simplify.meet", g_equal(g_meet(got, q.m), want), [&] { return "meet with the context not preserved: result " + g_show(got) + " X=" + g_show(before) + " context=" + g_show(q.m); });
+      c.check("grid.simplify.size", o.ps.size() <= sz, "more disjuncts than before");
+      c.check("grid.simplify.verdict", r == !g_empty(want), [&] { return std::string("returned ") + (r ? "true" : "false") + ": X=" + g_show(before) + " context=" + g_show(q.m); });
+      o.m = got; c.check("grid.inv.OK", o.ps.OK(), "OK() false after simplify"); arg_unchanged(q, "simplify_using_context_assign"); break; }
+    default: { GUnion cur = read(o.ps); if (cur.empty()) { c.log << "  (no disjunct to drop)\n"; break; } size_t k = t.range(0, (long) cur.size() - 1); c.log << "  drop_disjunct #" << k << "\n";
+      PS::iterator i = o.ps.begin(); std::advance(i, k); o.ps.drop_disjunct(i); GUnion e; for (size_t j = 0; j < cur.size(); ++j) if (j != k) e.push_back(cur[j]); settle(o, "drop_disjunct", e); break; }
+    }
+  }
+  void observe(Obj& o) {
+    const PS& p = o.ps; const GUnion& m = o.m; int q = t.weighted({16, 12, 10, 8, 10, 6, 6});
+    auto doc = [&](const GUnion& x, const GUnion& y, bool strictly) { for (size_t j = 0; j < y.size(); ++j) { bool f = false; for (size_t i = 0; i < x.size() && !f; ++i) f = x[i].contains(y[j]) && (!strictly || !y[j].contains(x[i])); if (!f) return false; } return true; };
+    switch (q) {
+    case 0: case 1: { Obj& y = partner(o); bool eq = q == 1; if (m.size() + y.m.size() > 8) break; if (nt_steps == 0 && (nontrivial_operand(m) || nontrivial_operand(y.m))) ++nt_steps;
+      bool r = eq ? p.geometrically_equals(y.ps) : p.geometrically_covers(y.ps); bool e = eq ? g_equal(m, y.m) : g_included(y.m, m);
+      c.log << "  ? " << (eq ? "geometrically_equals ps" : "geometrically_covers ps") << idx(y) << " -> " << r << "\n";
+      c.check(eq ? "grid.q.geometrically_equals" : "grid.q.geometrically_covers", r == e, [&] { return std::string(eq ? "geometrically_equals" : "geometrically_covers") + " answered " + (r ? "true" : "false") + ": X=" + g_show(m) + " Y=" + g_show(y.m); });
+      arg_unchanged(y, "geometric comparison"); arg_unchanged(o, "geometric comparison"); break; }
+    case 2: case 3: { Obj& y = partner(o); bool st = q == 3; bool r = st ? p.strictly_contains(y.ps) : p.contains(y.ps); c.log << "  ? " << (st ? "strictly_contains ps" : "contains ps") << idx(y) << " -> " << r << "\n"; bool d = doc(m, y.m, st);
+      c.check(st ? "grid.q.strictly_contains.documented" : "grid.q.contains.documented", r == d, [&] { return std::string("answered ") + (r ? "true" : "false") + ": X=" + g_show(m) + " Y=" + g_show(y.m); });
+      if (r) c.check("grid.q.contains.implies_covers", g_included(y.m, m), "entailment-based containment holds but Y is not covered"); break; }
+    case 4: { Obj& y = partner(o); bool r = p.is_disjoint_from(y.ps); c.log << "  ? is_disjoint_from ps" << idx(y) << " -> " << r << "\n"; c.check("grid.q.is_disjoint_from", r == g_empty(g_meet(m, y.m)), [&] { return "wrong: X=" + g_show(m) + " Y=" + g_show(y.m); }); break; }
+    case 5: { bool r = p.is_empty(); c.log << "  ? is_empty -> " << r << "\n"; c.check("grid.q.is_empty", r == g_empty(m), "is_empty() wrong"); break; }
+    default: { bool r = p.is_universe(); c.log << "  ? is_universe -> " << r << "\n"; bool e = false; for (size_t i = 0; i < m.size(); ++i) if (!m[i].empty && m[i].lines.size() == o.n) e = true; c.check("grid.q.is_universe", r == e, [&] { return "is_universe() wrong for " + g_show(m); }); break; }
+    }
+  }
+  void copy_step(Obj& o) {
+    size_t i = idx(o), j = t.range(0, (long) pool.size() - 1); int h = (int) t.range(0, 3);
+    if (h == 0) { c.log << "  ps" << i << " = ps" << j << "\n"; o.ps = pool[j].ps; o.m = pool[j].m; o.n = pool[j].n; }
+    else if (h == 1) { c.log << "  swap ps" << i << " ps" << j << "\n"; if (i != j) { swap(o.ps, pool[j].ps); std::swap(o.m, pool[j].m); std::swap(o.n, pool[j].n); } }
+    else if (h == 2) { c.log << "  ps" << i << " = copy-constructed ps" << j << "\n"; PS cp(pool[j].ps); GUnion mm = pool[j].m; size_t nn = pool[j].n; o.ps.m_swap(cp); o.m = mm; o.n = nn; }
+    else if (snaps.size() < 2) { c.log << "  snapshot of ps" << i << "\n"; Snap s = { PS(o.ps), o.m, "snapshot of ps" + std::to_string(i) }; snaps.push_back(s); }
+  }
+  void run() {
+    size_t n = 1 + (size_t) t.weighted({35, 45, 20}); c.log << "program Pointset_Powerset<Grid> dim " << n << "\n"; c.tag("domain Grid");
+    size_t k = (size_t) t.range(2, 3); pool.reserve(4);
+    for (size_t i = 0; i < k; ++i) { pool.push_back(Obj(n)); Obj& o = pool.back(); int cnt = (int) t.weighted({5, 20, 35, 30, 10}); c.log << " ps" << i << ":\n";
+      for (int j = 0; j < cnt; ++j) { Grid g(n); rl::Grid m(n); c.log << "  add_disjunct "; gen_disjunct(o, g, m); c.log << "\n"; o.ps.add_disjunct(g); o.m.push_back(m); }
+      settle(o, "construct", o.m); }
+    int steps = 0;
+    while (!t.exhausted() && steps < 10) { ++steps; size_t i = t.range(0, (long) pool.size() - 1); Obj& o = pool[i]; int what = t.weighted({60, 27, 13});
+      c.log << " step " << steps << " ps" << i << " (" << o.m.size() << " disjuncts, dim " << o.n << "):\n";
+      if (what == 0) mutate(o); else if (what == 1) observe(o); else copy_step(o); }
+    for (size_t i = 0; i < pool.size(); ++i) { GUnion got = read(pool[i].ps); c.check("grid.cow.pool", g_equal(got, pool[i].m), [&] { return "ps" + std::to_string(i) + " changed behind the model's back: now " + g_show(got) + " model " + g_show(pool[i].m); }); }
+    for (size_t i = 0; i < snaps.size(); ++i) { GUnion got = read(snaps[i].ps); c.check("grid.cow.snapshot", g_equal(got, snaps[i].m), [&] { return snaps[i].what + " changed after later mutations of the original"; }); }
+    if (nt_steps >= 1) c.nt();
+  }
+};
+
 void vf_case(Ctx& c) {
-  int dom = c.t.weighted({30, 30, 20, 20});
+  int dom = c.t.weighted({26, 26, 16, 16, 16});
 #ifdef VF_ONLY
   dom = VF_ONLY;
 #endif
   if (dom == 0) { Prog<C_Polyhedron> p(c); p.run(); }
   else if (dom == 1) { Prog<NNC_Polyhedron> p(c); p.run(); }
   else if (dom == 2) { Prog<BD_Shape<mpq_class> > p(c); p.run(); }
-  else { Prog<Rational_Box> p(c); p.run(); }
+  else if (dom == 3) { Prog<Rational_Box> p(c); p.run(); }
+  else { GProg p(c); p.run(); }
 }
 VF_MAIN
